@@ -40,3 +40,6 @@ func (v *VerifModule) Handle(product string, rules []VerifRule, req *bfe_basic.R
 	ret, resp := v.m.authBasicHandler(req)
 	return ret, resp, nil
 }
+
+// VerifReadUserFile exposes readUserFile (the htpasswd-style user file loader).
+func VerifReadUserFile(filename string) (map[string]string, error) { return readUserFile(filename) }
